@@ -1,13 +1,18 @@
 #!/bin/bash
 # Offline build of the Coq development (regenerates Gen/ from the tree first).
+# Succeeds iff the dependency closure of every claimed property's Props/Cxx.v built.
 cd /verif
 R="${VERIF_REPO:-/repo}"
 export PYTHONPATH="$R/pulser-core:$R/pulser-simulation:/verif"
 export PYTHONHASHSEED=0
 /venv/bin/python - <<'PY'
-import sys
+import json, sys
 from harness import common
 ok, log = common.coq_build()
-print(log[-4000:])
-sys.exit(0 if ok else 1)
+print(log[-3000:])
+claimed = [c["property_id"] for c in json.load(open("/verif/MANIFEST.json"))["checks"]]
+missing = [p for p in claimed if not common.coq_file_ok(f"Props/{p}.v")]
+if missing:
+    print("NOT BUILT:", missing)
+sys.exit(1 if missing else 0)
 PY
